@@ -101,6 +101,7 @@ type Ctx struct {
 }
 
 // watchdog state
+var curFile *os.File
 var curOp atomic.Value // string
 var curStart atomic.Int64
 
@@ -115,6 +116,12 @@ func execSafe(p *Prop, line string) (res string) {
 	}()
 	curOp.Store(line)
 	curStart.Store(time.Now().UnixNano())
+	if curFile != nil {
+		// a fatal runtime error (stack overflow, out of memory) kills the process without
+		// unwinding: leave the op being executed where the runner can find it
+		curFile.Truncate(0)
+		curFile.WriteAt([]byte(line+"\n"), 0)
+	}
 	defer curStart.Store(0)
 	f := strings.Fields(line)
 	if len(f) < 2 || f[0] != p.ID {
@@ -174,7 +181,7 @@ func (c *Ctx) Check(oracle string, idx ...int) bool {
 	c.rep.FailureCount++
 	c.rep.ClassTally[class]++
 	// keep all unclassified failures up to a cap, and a few per class
-	if (class == "" && c.rep.ClassTally[""] <= 200) || (class != "" && c.rep.ClassTally[class] <= 40) {
+	if (class == "" && c.rep.ClassTally[""] <= 200) || (class != "" && c.rep.ClassTally[class] <= 3000) {
 		c.rep.Failures = append(c.rep.Failures, Failure{oracle, detail, idx, ls, rs, class})
 	}
 	return false
@@ -292,6 +299,7 @@ func Main(p *Prop) {
 		ops: bufio.NewWriterSize(fo, 1<<20), res: bufio.NewWriterSize(fr, 1<<20),
 		rep:   &Report{Property: p.ID, Tier: *tier, Seed: *seed, Distribution: map[string]int{}, ClassTally: map[string]int{}, Rule: p.Rule},
 		nontr: map[string]struct{}{}, cache: map[string]int{}}
+	curFile, _ = os.Create(filepath.Join(*out, "current.txt"))
 	start := time.Now()
 	// watchdog: an op running longer than the limit is a hang (C04).
 	go func() {
@@ -388,6 +396,10 @@ func Main(p *Prop) {
 	c.res.Flush()
 	fo.Close()
 	fr.Close()
+	if curFile != nil {
+		curFile.Close()
+		os.Remove(filepath.Join(*out, "current.txt"))
+	}
 	c.rep.Ops = len(c.lines)
 	c.rep.Nontrivial = len(c.nontr)
 	c.rep.WallS = time.Since(start).Seconds()
